@@ -1226,12 +1226,12 @@ Section GovProofs.
     step_ok E_eqb sem accts nodes a o rc b = 0 <->
     cl_final a b = true /\ cl_tally b = true /\ cl_ballots a b = true /\ cl_approved sem b = true /\
     cl_rejected sem a b = true /\ cl_special b = true /\ cl_refusal E_eqb accts nodes a o rc b = true /\
-    cl_object accts nodes a b = true /\ cl_header E_eqb a b = true /\ cl_avail a b = true /\ cl_bound b = true.
+    cl_object accts nodes a b = true /\ cl_header E_eqb a b = true /\ cl_avail a b = true /\ cl_bound a b = true.
   Proof.
     unfold step_ok.
     destruct (cl_final a b), (cl_tally b), (cl_ballots a b), (cl_approved sem b), (cl_rejected sem a b),
              (cl_special b), (cl_refusal E_eqb accts nodes a o rc b), (cl_object accts nodes a b),
-             (cl_header E_eqb a b), (cl_avail a b), (cl_bound b); simpl; split; intro H; try discriminate; try tauto;
+             (cl_header E_eqb a b), (cl_avail a b), (cl_bound a b); simpl; split; intro H; try discriminate; try tauto;
       repeat match goal with H : _ /\ _ |- _ => destruct H end; try discriminate.
   Qed.
 
@@ -1254,6 +1254,13 @@ Section GovProofs.
     destruct (step_ok E_eqb sem accts nodes a o rc b =? 0) eqn:Ec.
     - apply N.eqb_eq in Ec. rewrite IH. tauto.
     - apply N.eqb_neq in Ec. split; [intro H; lia | intros [H _]; congruence].
+  Qed.
+
+  Lemma trace_ok_skip_nil accts nodes tr : forall (a : state) k,
+    trace_ok_skip E_eqb sem [] accts nodes a tr k = trace_ok E_eqb sem accts nodes a tr k.
+  Proof.
+    induction tr as [|[[o rc] b] t IH]; intros a k; simpl; [reflexivity|].
+    rewrite orb_false_r. rewrite IH. reflexivity.
   Qed.
 
   Lemma obs_list_self (l : list (N * N)) :
